@@ -64,10 +64,12 @@ def make_keymap(name):
         'strflat': lambda: stringmap(),
         'pickle': lambda: picklemap(serializer='dill'),
         'picklenf': lambda: picklemap(flat=False, serializer='dill'),
+        'pickle2': lambda: picklemap(serializer='dill', protocol=2),          # serializer options are part of the key bytes
         'md5': lambda: hashmap(algorithm='md5'),
         'md5nf': lambda: hashmap(flat=False, algorithm='md5'),
         'strtyped': lambda: stringmap(typed=True),
         'md5typed': lambda: hashmap(typed=True, algorithm='md5'),
+        'sha512_224': lambda: hashmap(algorithm='sha512_224'),       # a digest hashlib only offers through hashlib.new()
         'chain': lambda: stringmap() + hashmap(algorithm='md5'),            # composed keymaps: encode with the first, then the second
         'chainnf': lambda: picklemap(flat=False, serializer='dill') + hashmap(flat=False, algorithm='md5'),
         'default': lambda: None,
@@ -307,7 +309,7 @@ class Hist:
             g.load()
         N = cfg['N']
         mgmt = cfg.get('ops') == 'mgmt'
-        alphabet = ('call', 'dump', 'load', 'clear', 'clear_keep', 'off', 'on', 'swap', 'loadk')
+        alphabet = ('call', 'dump', 'load', 'clear', 'clear_keep', 'off', 'on', 'swap')     # (loadk: only in the prefetch script)
         fixed = cfg.get('pattern')           # compaction histories: step i re-uses atom pattern[i] (None = fresh)
         atoms = []
         script = cfg.get('script')           # a fixed sequence of operations (named scenarios); arguments stay symbolic
@@ -430,9 +432,8 @@ class _State:
                 # an archive refused a value it cannot encode: the call may fail, but nothing that was stored may get lost
                 mem_a, arch_a = self.snap()
                 for k, v in mem_b.items():
-                    if is_unstorable(v):
-                        continue          # a value no archive can hold has nowhere to go
-                    ok = ((k in mem_a) and (mem_a[k] == v)) or ((k in arch_a) and (arch_a[k] == v))
+                    # (a value no archive can hold can only stay in memory: it must not vanish either)
+                    ok = ((k in mem_a) and (mem_a[k] is v or mem_a[k] == v)) or ((k in arch_a) and (arch_a[k] == v))
                     ctx.check(ok, 'C07:refused-write-loses-nothing', {'kind': 'an entry was dropped from memory although its archive write failed'})
                 for k, v in arch_b.items():
                     ctx.check((k in arch_a) and (arch_a[k] == v), 'C07:archive-monotone', {'kind': 'archived entry changed or removed'})
@@ -778,6 +779,12 @@ def plan(prop, tier):
                     if a in BOUNDED:
                         for sname, sc in SCRIPTS.items():
                             if q and sname == 'toggle':
+                                continue
+                            if sname == 'midload':
+                                continue              # C06 only (its own plan)
+                            if sname == 'prefetch':
+                                if prop in ('C05', 'C15') and not p:
+                                    add(module=m, algo=a, purge=p, backend='cached_dict', script=sc, maxsize=2, scenario=sname)
                                 continue
                             if sname == 'attach':
                                 # decorated without an archive (purge requested or not), archive attached later
